@@ -171,6 +171,15 @@ func Generate(prop string, prof *Profile, seed int64, run int, opts Options) (*P
 		}
 	}
 	if !(opts.StopOnViolation && len(sim.Violations) > 0) && !prof.NoQuiesce {
+		if g.crashes && sim.alive && r.Intn(4) == 0 {
+			// the last thing that happens is a kill: the server that has to finish the stored work
+			// is one that has just been started on it
+			st := Step{Op: "crash"}
+			traceStep(&st)
+			sim.Exec(len(plan.Steps), &st)
+			plan.Steps = append(plan.Steps, st)
+			sim.Probes["final_crash"]++
+		}
 		st := Step{Op: "quiesce"}
 		traceStep(&st)
 		sim.Exec(len(plan.Steps), &st)
